@@ -290,6 +290,193 @@ fn enabled(h: &[Op], max_sessions: usize) -> Vec<Op> {
     v
 }
 
+// ---------------------------------------------------------------- concurrency on the pool lock
+
+#[derive(Clone, Copy, Debug, PartialEq, Eq)]
+pub enum Ev {
+    Get,
+    /// the newest pooled session dies
+    DieNewest,
+    Count,
+    AddNew,
+    Cleanup,
+    /// a task passes through the pool lock (idle_count) and then the newest session dies at once
+    CountThenDie,
+}
+
+/// While the periodic reaper is stalled inside close() of an expired session (its transport's
+/// shutdown never completes, so close() takes its 1 s timeout while holding the pool lock), the
+/// events of `order` happen 100 ms apart and queue on the lock.
+pub fn make_conc(order: Vec<Ev>, min_idle: usize) -> crate::ctl::ScenarioFn {
+    scenario(move || {
+        let order = order.clone();
+        async move {
+            let mut out = Outcome::default();
+            let pool = Arc::new(SessionPool::with_config(SessionPoolConfig {
+                check_interval: Duration::from_millis(1000),
+                idle_timeout: Duration::from_millis(2000),
+                min_idle_sessions: min_idle,
+            }));
+            settle().await;
+            let mk = |seq: u64, stall: bool| async move {
+                let link = peer_link(PipeCfg::new("s2c"), PipeCfg::new("c2s"));
+                if stall {
+                    link.peer.out.set_shutdown_mode(crate::vpipe::ShutdownMode::Never);
+                }
+                let sess = start_client_session(link.sess_r, link.sess_w, padding(STOP0), None, seq).await.ok()?;
+                Some((sess, link.peer))
+            };
+            // S1 (and S0 when a minimum is configured) expire at t = 2000; S2 is the newest and still fresh then
+            let mut keep = vec![];
+            if min_idle > 0 {
+                let Some((s0, p0)) = mk(1, false).await else { return out };
+                pool.add_idle_session(s0.clone()).await;
+                keep.push((s0, p0));
+            }
+            let Some((s1, p1)) = mk(2, true).await else { return out };
+            pool.add_idle_session(s1.clone()).await;
+            tokio::time::sleep(Duration::from_millis(1500)).await;
+            let Some((s2, p2)) = mk(3, false).await else { return out };
+            pool.add_idle_session(s2.clone()).await;
+            let p2: Arc<Mutex<Option<RawPeer>>> = Arc::new(Mutex::new(Some(p2)));
+            // the reaper tick at t = 2000 starts closing S1 and stalls for 1 s
+            tokio::time::sleep(Duration::from_millis(560)).await;
+            let log: Arc<Mutex<Vec<String>>> = Arc::new(Mutex::new(vec![]));
+            let viols: Arc<Mutex<Vec<(String, String)>>> = Arc::new(Mutex::new(vec![]));
+            let handed: Arc<Mutex<Vec<u64>>> = Arc::new(Mutex::new(vec![]));
+            let mut hs = vec![];
+            for (i, ev) in order.iter().enumerate() {
+                let ev = *ev;
+                match ev {
+                    Ev::DieNewest => {
+                        if let Some(p) = p2.lock().unwrap().as_mut() {
+                            p.close_write();
+                        }
+                        settle().await;
+                        log.lock().unwrap().push(format!("die@{i}:closed={}", s2.is_closed()));
+                    }
+                    _ => {
+                        let pool = pool.clone();
+                        let log = log.clone();
+                        let viols = viols.clone();
+                        let handed = handed.clone();
+                        let p2 = p2.clone();
+                        hs.push(tokio::spawn(async move {
+                            crate::ctl::hpoint("h.c12.event").await;
+                            match ev {
+                                Ev::Get => match tokio::time::timeout(Duration::from_secs(600), pool.get_idle_session()).await {
+                                    Err(_) => viols.lock().unwrap().push(("C12:get-blocks".into(), format!("event {i}: get_idle_session did not return"))),
+                                    Ok(None) => log.lock().unwrap().push(format!("get@{i}:none")),
+                                    Ok(Some(s)) => {
+                                        if s.is_closed() {
+                                            viols.lock().unwrap().push(("C12:get-returned-closed-session".into(), format!("event {i}: get_idle_session returned session seq {} which was already closed at the moment it was returned", s.seq())));
+                                        }
+                                        let mut h = handed.lock().unwrap();
+                                        if h.contains(&s.seq()) {
+                                            viols.lock().unwrap().push(("C12:get-returned-session-not-in-pool".into(), format!("event {i}: session seq {} handed out twice", s.seq())));
+                                        }
+                                        h.push(s.seq());
+                                        log.lock().unwrap().push(format!("get@{i}:seq{}", s.seq()));
+                                    }
+                                },
+                                Ev::Count => {
+                                    let c = tokio::time::timeout(Duration::from_secs(600), pool.idle_count()).await;
+                                    log.lock().unwrap().push(format!("count@{i}:{:?}", c.ok()));
+                                }
+                                Ev::AddNew => {
+                                    let link = peer_link(PipeCfg::new("s2c"), PipeCfg::new("c2s"));
+                                    if let Ok(sess) = start_client_session(link.sess_r, link.sess_w, padding(STOP0), None, 10 + i as u64).await {
+                                        tokio::spawn(link.peer.sink());
+                                        let _ = tokio::time::timeout(Duration::from_secs(600), pool.add_idle_session(sess)).await;
+                                    }
+                                    log.lock().unwrap().push(format!("add@{i}"));
+                                }
+                                Ev::Cleanup => {
+                                    if tokio::time::timeout(Duration::from_secs(600), pool.cleanup_expired()).await.is_err() {
+                                        viols.lock().unwrap().push(("C12:cleanup-blocks".into(), format!("event {i}")));
+                                    }
+                                    log.lock().unwrap().push(format!("cleanup@{i}"));
+                                }
+                                Ev::CountThenDie => {
+                                    let _ = tokio::time::timeout(Duration::from_secs(600), pool.idle_count()).await;
+                                    if let Some(p) = p2.lock().unwrap().as_mut() {
+                                        p.close_write();
+                                    }
+                                    settle().await;
+                                    log.lock().unwrap().push(format!("count-then-die@{i}"));
+                                }
+                                Ev::DieNewest => {}
+                            }
+                        }));
+                    }
+                }
+                tokio::time::sleep(Duration::from_millis(100)).await;
+            }
+            for h in hs {
+                let _ = h.await;
+            }
+            // housekeeping closed only the expired, stream-less session(s)
+            if s2.is_closed() && !order.contains(&Ev::DieNewest) && !order.contains(&Ev::CountThenDie) {
+                viols.lock().unwrap().push(("C12:reaper-closed-fresh-session".into(), "the newest session (idle 0.5 s of a 2 s timeout) was closed".into()));
+            }
+            for (k, d) in viols.lock().unwrap().iter() {
+                out.viol(k.clone(), d.clone());
+            }
+            out.obs = log.lock().unwrap().join(" ");
+            pool.stop_cleanup_task().await;
+            let _ = s1.close().await;
+            let _ = s2.close().await;
+            drop(p1);
+            drop(p2);
+            drop(keep);
+            out
+        }
+    })
+}
+
+fn conc_items(tier: Tier) -> Vec<crate::dxrun::DxItem> {
+    // every ordering of every subset of size 2..=4 (5) of the events, with at most two Gets
+    let evs = [Ev::Get, Ev::Get, Ev::DieNewest, Ev::Count, Ev::AddNew, Ev::Cleanup, Ev::CountThenDie];
+    let maxlen = if tier.is_thorough() { 5 } else { 4 };
+    let mut orders: Vec<Vec<Ev>> = vec![];
+    fn rec(cur: &mut Vec<usize>, evs: &[Ev], maxlen: usize, out: &mut Vec<Vec<Ev>>) {
+        if cur.len() >= 2 {
+            let o: Vec<Ev> = cur.iter().map(|i| evs[*i]).collect();
+            if !out.contains(&o) {
+                out.push(o);
+            }
+        }
+        if cur.len() == maxlen {
+            return;
+        }
+        for i in 0..evs.len() {
+            if !cur.contains(&i) {
+                cur.push(i);
+                rec(cur, evs, maxlen, out);
+                cur.pop();
+            }
+        }
+    }
+    rec(&mut vec![], &evs, maxlen, &mut orders);
+    let mut v = vec![];
+    for o in orders {
+        if !o.contains(&Ev::Get) {
+            continue;
+        }
+        for min_idle in [0usize, 1] {
+            let params = json!({"part": "pool-lock-concurrency", "order": o.iter().map(|e| format!("{e:?}")).collect::<Vec<_>>(), "min_idle": min_idle});
+            let mut it = crate::dxrun::DxItem::new(params, make_conc(o.clone(), min_idle), if o.len() <= 3 { 1 } else { 0 });
+            it.exec.long_yield = 3;
+            v.push(it);
+        }
+    }
+    v
+}
+
+pub fn replay(file: &str) -> i32 {
+    crate::dxrun::replay(file, conc_items)
+}
+
 pub fn run(tier: Tier) -> i32 {
     let mut rep = Report::new("C12", tier, "model_checking");
     let thorough = tier.is_thorough();
@@ -359,6 +546,7 @@ pub fn run(tier: Tier) -> i32 {
             rep.machinery(format!("vacuous BX: {} distinct idle-count traces for config {:?}", distinct.len(), cfg));
         }
     }
+    crate::dxrun::run_items(&mut rep, "C12", tier, conc_items(tier), crate::dxrun::DxOpts { time_cap: Duration::from_secs(if thorough { 600 } else { 40 }), det_replays: 2, max_violations: 2, vacuity_check: false });
     rep.sections.insert("bx".into(), json!({"histories_per_config": n_h, "depth": depth, "max_sessions": max_sessions, "configs": cfgs.iter().map(|c| json!([c.interval_ms, c.timeout_ms, c.min_idle])).collect::<Vec<_>>()}));
     rep.finish("BX: every operation history of depth d over {new, new+stream, get, open(s), fin(s), die(s), cleanup, advance(I/2 | I | T)} with <= 2 (3) sessions x 4 (6) pool configurations, each replayed from scratch on the real SessionPool / Sessions under virtual time and checked after every step (Get never returns a closed or already taken session, housekeeping never closes a session in use or handed out, minimum idle kept, idle_count vs model) and for the eventual reaping of surplus idle sessions; non-trivial = distinct (config, history)")
 }
